@@ -58,7 +58,8 @@ Definition code_params : params :=
   {| p_max_len := gen_max_baseline_length; p_min_len := code_min_len;
      p_cov_num := 9; p_cov_den := 10; p_tcov_num := 9; p_tcov_den := 10;
      p_baseline_seq := gen_baseline_seq; p_reporting_seq := gen_reporting_seq;
-     p_reporting_flag := gen_reporting_flag; p_offcycle_dq := gen_offcycle_dq |}.
+     p_reporting_flag := gen_reporting_flag; p_offcycle_dq := gen_offcycle_dq;
+     p_span_ignores_usage := gen_span_ignores_usage; p_baseline_adds_usage := gen_baseline_adds_usage |}.
 
 (* ---------------- run-length encoded frames ---------------- *)
 
@@ -113,8 +114,9 @@ Definition outcome_eqb (a b : outcome) : bool :=
 
 (* the implementation's count equals the exact one, or is one below it where the exact sum is a whole number
    reached through non-dyadic period lengths (binary64 accumulation, D20) *)
+(* ... unless the code rounds the sum before truncating (gen_day_sum_rounded): then the counts are the exact ones *)
 Definition count_agrees (exact impl : Z) (near : unit -> bool) : bool :=
-  if impl =? exact then true else if impl =? exact - 1 then near tt else false.
+  if impl =? exact then true else if gen_day_sum_rounded then false else if impl =? exact - 1 then near tt else false.
 
 Record case := mkcase {
   k_family : family; k_period : period; k_electric : bool; k_ctx : ctx;
@@ -135,12 +137,13 @@ Definition outcome_agrees (c : case) (m : outcome) : bool :=
   if k_drop_extreme c then outcome_eqb (drop_extreme m) (drop_extreme (k_outcome c)) else outcome_eqb m (k_outcome c).
 
 Definition check_case (c : case) : bool :=
-  let fr := case_frame c in
+  let fr0 := case_frame c in
   let p := code_params in
   let is_rep := is_reporting_flag p (k_family c) (k_period c) in
   match k_counts c with
-  | None => outcome_agrees c (dataclass p (k_family c) (k_period c) (k_electric c) (k_ctx c) fr)
+  | None => outcome_agrees c (dataclass p (k_family c) (k_period c) (k_electric c) (k_ctx c) fr0)
   | Some ic =>
+      let fr := handed_frame p (k_family c) (k_period c) fr0 in
       let ex := compute_counts p is_rep fr in
       let rows := f_rows fr in
       (* the near-integer test is evaluated only when the counts differ by one *)
